@@ -90,6 +90,19 @@ def judge(case, impl, model, spec, ctx):
                         break
         elif res[0] == 0 or res[0] == 2:
             out.append(("violation", "pure arrival scenario ended with %s" % res))
-    if not out and model is not None and impl != model:
+    # direct oracle on every scenario: a close by the idle timer while bytes were accepted by a sink
+    # within the last T (a partial write under back-pressure is a transfer too)
+    toks = impl.split()
+    # (stated, like theorem no_early_close, for a tunnel whose two directions are both still open: once one
+    # direction has ended, the other one is given a plain T to produce data)
+    both_open = len(toks) >= 3 and untok(toks[1])[3] == 0 and untok(toks[2])[3] == 0
+    if not out and res[0] == 1 and len(toks) >= 4 and both_open:
+        e = res[1]
+        for side, lw in zip(("left", "right"), untok(toks[3])):
+            if lw > 0 and (lw - 1) > e - T:
+                out.append(("violation", "tunnel closed by the idle timer at %d ms although the %s sink accepted bytes at %d ms, "
+                            "less than T = %d ms earlier" % (e, side, lw - 1, T)))
+                break
+    if not out and model is not None and " ".join(toks[:3]) != model:
         out.append(("disagree", "outcome / end time differs from the timed model"))
     return out
